@@ -18,6 +18,44 @@ ASSUMPTIONS = [
 ]
 
 
+def run_ingest_stress(out, wd, docs, prop, label="ing"):
+    """LsmTree::ingest from several threads against running compaction threads; Trace_Stall validates progress,
+    the read-back of every key and the verifier's verdict on the history."""
+    jobs = []
+    for i, d in enumerate(docs):
+        dp = os.path.join(wd, f"{label}{i}.json")
+        json.dump(d, open(dp, "w"))
+        jobs.append(["ingest-stress", dp, os.path.join(wd, f"{label}db{i}"), os.path.join(wd, f"{label}{i}.ndjson")])
+    os.environ["VERIF_JOBS"] = "4"
+    res = run_vh_parallel(jobs, timeout=600)
+    os.environ.pop("VERIF_JOBS", None)
+    for i, x in enumerate(res):
+        for v in x.get("violations", []):
+            out.violation(v["replay"], json.dumps(v["mismatch"])[:300])
+        if x.get("crashed"):
+            continue
+        tp = os.path.join(wd, f"{label}{i}.ndjson")
+        r = run_tlc("Trace_Stall", cfg_text(spec="TraceSpec", postcondition="TraceAccepted"), wd, f"t{label}{i}", workers=1, timeout=900, dfs=True, heap="2g",
+                    env_extra={"TRACE": tp})
+        text = open(r.out, errors="replace").read()
+        nlines = sum(1 for _ in open(tp))
+        out.states += r.distinct
+        out.transitions += r.generated
+        m = re.search(r'"matched", (\d+), "of", (\d+)', text)
+        if m or r.distinct < nlines + 1:
+            if r.error and not m:
+                raise ToolError(f"TLC Trace_Stall: {r.error} ({r.out})")
+            g = re.findall(r'"GUARD-FAILED",\s*"([^"]+)"', text)
+            lines = open(tp).read().splitlines()
+            at = int(m.group(1)) if m else 0
+            path = vlib.save_replay(prop, "ingest", {"doc": docs[i], "guard": g[-1] if g else None, "rejected_event": json.loads(lines[at]) if at < len(lines) else None})
+            out.violation(path, f"ingest stress: guard={g[-1] if g else None} event={lines[at][:240] if at < len(lines) else None}")
+        else:
+            out.traces += 1
+            out.extra["events_validated"] = out.extra.get("events_validated", 0) + nlines
+        shutil.rmtree(os.path.join(wd, f"{label}db{i}"), ignore_errors=True)
+
+
 def check(replay=None):
     out = Outcome(PROP)
     wd = vlib.workdir()
@@ -60,46 +98,18 @@ def check(replay=None):
     if replay:
         docs = [json.load(open(replay))["doc"]]
     else:
-        for i in range(10 if not thorough else 60):
+        # pinned shapes: disjoint key ranges (every compaction a trivial move), one and several ingesters
+        for (ing, comp, nk, stall, mand) in [(1, 1, 1000000, 2, 2), (2, 1, 1000000, 3, 1), (4, 2, 4, 2, 1)]:
+            docs.append({"ingesters": ing, "compactors": comp, "iters": 60, "nkeys": nk, "pad": 0, "yield_seed": rng.randrange(1, 1 << 30), "timeout": 90,
+                         "opts": {"l0-write-stall-threshold-files": stall, "l0-mandatory-compaction-threshold-files": mand, "max-compaction-files": 16}})
+        for i in range(8 if not thorough else 60):
             stall = rng.choice([2, 3, 4, 6, 12])
             mand = rng.randint(1, stall)
             maxf = rng.choice([stall + 4, 16, 64])
             docs.append({"ingesters": rng.choice([1, 2, 4]), "compactors": rng.choice([1, 2, 3]), "iters": rng.choice([40, 80, 150]), "nkeys": rng.choice([2, 4, 8, 1000000, 1000000]),
                          "pad": rng.choice([0, 0, 1500]), "yield_seed": rng.choice([0, rng.randrange(1, 1 << 30)]), "timeout": 90,
                          "opts": {"l0-write-stall-threshold-files": stall, "l0-mandatory-compaction-threshold-files": mand, "max-compaction-files": maxf}})
-    jobs = []
-    for i, d in enumerate(docs):
-        dp = os.path.join(wd, f"ing{i}.json")
-        json.dump(d, open(dp, "w"))
-        jobs.append(["ingest-stress", dp, os.path.join(wd, f"ingdb{i}"), os.path.join(wd, f"ing{i}.ndjson")])
-    os.environ["VERIF_JOBS"] = "4"
-    res = run_vh_parallel(jobs, timeout=600)
-    os.environ.pop("VERIF_JOBS", None)
-    for i, x in enumerate(res):
-        for v in x.get("violations", []):
-            out.violation(v["replay"], json.dumps(v["mismatch"])[:300])
-        if x.get("crashed"):
-            continue
-        tp = os.path.join(wd, f"ing{i}.ndjson")
-        r = run_tlc("Trace_Stall", cfg_text(spec="TraceSpec", postcondition="TraceAccepted"), wd, f"ting{i}", workers=1, timeout=900, dfs=True, heap="2g",
-                    env_extra={"TRACE": tp})
-        text = open(r.out, errors="replace").read()
-        nlines = sum(1 for _ in open(tp))
-        out.states += r.distinct
-        out.transitions += r.generated
-        m = re.search(r'"matched", (\d+), "of", (\d+)', text)
-        if m or r.distinct < nlines + 1:
-            if r.error and not m:
-                raise ToolError(f"TLC Trace_Stall: {r.error} ({r.out})")
-            g = re.findall(r'"GUARD-FAILED",\s*"([^"]+)"', text)
-            lines = open(tp).read().splitlines()
-            at = int(m.group(1)) if m else 0
-            path = vlib.save_replay(PROP, "ingest", {"doc": docs[i], "guard": g[-1] if g else None, "rejected_event": json.loads(lines[at]) if at < len(lines) else None})
-            out.violation(path, f"ingest stress: guard={g[-1] if g else None} event={lines[at][:240] if at < len(lines) else None}")
-        else:
-            out.traces += 1
-            out.extra["events_validated"] = out.extra.get("events_validated", 0) + nlines
-        shutil.rmtree(os.path.join(wd, f"ingdb{i}"), ignore_errors=True)
+    run_ingest_stress(out, wd, docs, PROP)
     # the store's own clients under the same watchdog (flush thread + compaction threads + writers)
     if not replay:
         p_conc.run_stress(out, wd, p_conc.conc_docs(rng, 4 if not thorough else 20), PROP, vlib.open_deviations({"C06"}), "c20_")
